@@ -356,6 +356,39 @@ def _role_case(role, s, channel):
     return {"name": "t/ok", "fields": [(s, "ok")], "channel": channel, "role": role}
 
 
+def derived_type_names():
+    """Strings derived from every whitelisted type name: dotted prefixes (namespace nodes), suffixes, list forms,
+    case variants, one-character edits - the near misses a whitelist check must still refuse."""
+    out = set()
+    for w in sorted(WHITELIST_PINNED):
+        parts_ = w.split(".")
+        cands = {w, w + "[]", w + "[][]", w + "[", w + "]", "[]" + w, w + ".", "." + w, w + ".x", w + "x", w[:-1], w[1:],
+                 w.upper(), w.lower(), w.capitalize(), w.swapcase(), w + " ", " " + w, w + "\n", w + "[] ", w + " []",
+                 w.replace(".", ".."), w.replace(".", "/"), w.replace(".", "_"), "fieldtypes." + w,
+                 "flow.record.fieldtypes." + w}
+        for i in range(1, len(parts_)):
+            pre = ".".join(parts_[:i])
+            cands |= {pre, pre + "[]", pre + ".", pre + ".[]"}
+            cands.add(".".join(parts_[i:]))
+        for c in cands:
+            out.add(c)
+            out.add(c + "[]")
+    out |= {"net.ip.ipaddress", "net.ip.ipaddress[]", "net.ipv4.address", "net.ipv4.subnet", "net.tcp.port", "net.udp.port",
+            "net.ipv4.SubnetList", "net.hostname", "net.email", "credential.username", "typedlist", "FieldType", "record[]",
+            "posix_path", "windows_path", "posix_command", "windows_command", "hostname", "email", "net.ipv4.addr_long"}
+    return sorted(out)
+
+
+def type_name_cases(tier):
+    cases = []
+    for tname in derived_type_names():
+        for ch in ("constructor", "stream", "json", "avro"):
+            cases.append({"name": "t/ok", "fields": [(tname, "ok")], "channel": ch, "role": "derived-type-name"})
+            cases.append({"name": "t/ok", "fields": [("string", "first"), (tname, "ok")], "channel": ch,
+                          "role": "derived-type-name"})
+    return cases
+
+
 def exhaustive_cases(tier):
     cases = []
     for role in ("type-name", "field-name", "field-type"):
@@ -442,5 +475,6 @@ def generated_case(draw):
 def parts(tier):
     return [
         Part("short-strings", check_definition, cases=exhaustive_cases, exhaustive=(tier == "thorough")),
+        Part("derived-type-names", check_definition, cases=type_name_cases, exhaustive=True),
         Part("generated", check_definition, strategy=generated_case(), examples=(250, 4000)),
     ]
